@@ -1277,6 +1277,26 @@ impl QueryRouter {
         self.active_shard
     }
 
+    /// Infer the role for one more Parse of a batch that has not been sent to a server yet.
+    /// The batch runs on one server: if an earlier Parse of it needs the primary, so does the batch,
+    /// whatever the later ones are.
+    pub fn infer_for_batch(
+        &mut self,
+        ast: &Vec<sqlparser::ast::Statement>,
+        earlier_parse_in_batch: bool,
+    ) -> Result<(), Error> {
+        let primary_needed_so_far =
+            earlier_parse_in_batch && matches!(self.active_role, Some(Role::Primary));
+
+        let result = self.infer(ast);
+
+        if primary_needed_so_far && self.pool_settings.query_parser_read_write_splitting {
+            self.active_role = Some(Role::Primary);
+        }
+
+        result
+    }
+
     /// Set active_role as the default_role specified in the pool.
     pub fn set_default_role(&mut self) {
         self.active_role = self.pool_settings.default_role;
